@@ -36,12 +36,12 @@ Proof.
   induction n as [|n (IHm & IHb & IHu)]; [split; [|split]; intros; discriminate|].
   split; [|split].
   - (* members *)
-    intros mp h it lv H. cbn [chk_member] in H. destruct it as [g [l|]|id og body|og body|k v|k v]; try discriminate.
+    intros mp h it lv H. cbn [chk_member] in H. destruct it as [g lf|id og body|og body|k v|k v]; try discriminate.
     + destruct h as [g' p|p lins].
       * destruct (String.eqb g g') eqn:E; [|discriminate]. apply String.eqb_eq in E. subst g'. inversion H. constructor.
       * destruct lins as [|[|c [|c2 cr]] [|l2 lr]]; try discriminate. apply sm_omit. apply IHm. exact H.
     + destruct h as [g p|p lins].
-      * destruct body as [|[| | |k nm|] [|[g' [l|]| | | |] [|x r]]]; try discriminate.
+      * destruct body as [|[| | |k nm|] [|[g' lf'| | | |] [|x r]]]; try discriminate.
         destruct (String.eqb k "TaxRange") eqn:Ek; [|discriminate]. destruct (String.eqb g g') eqn:Eg; [|discriminate].
         destruct (name_of t p) as [n0|] eqn:En; [|discriminate]. destruct (String.eqb n0 nm) eqn:En0; [|discriminate].
         apply String.eqb_eq in Ek, Eg, En0. subst. inversion H. apply sm_wrap. exact En.
